@@ -389,8 +389,6 @@ end peel
 
 /-- one peeling step for `SExt s (f (g … s))` goals -/
 syntax "sx_step" : tactic
-macro_rules | `(tactic| sx_step) => `(tactic| assumption)
-macro_rules | `(tactic| sx_step) => `(tactic| exact SExt.refl _)
 macro_rules | `(tactic| sx_step) => `(tactic| apply xpeel_sendLogout)
 macro_rules | `(tactic| sx_step) => `(tactic| apply xpeel_initiateLogout)
 macro_rules | `(tactic| sx_step) => `(tactic| apply xpeel_sendInReplyTo _ (by first | exact outOK_logout | exact outOK_heartbeat | exact outOK_testRequest | assumption))
@@ -399,7 +397,7 @@ macro_rules | `(tactic| sx_step) => `(tactic| apply xpeel_sendResendRequest)
 macro_rules | `(tactic| sx_step) => `(tactic| apply xpeel_doReject _ _ _ (by assumption))
 macro_rules | `(tactic| sx_step) => `(tactic| apply xpeel_sendLogonInReplyTo)
 macro_rules | `(tactic| sx_step) => `(tactic| apply xpeel_sendQueued)
-macro_rules | `(tactic| sx_step) => `(tactic| apply xpeel_emit _ (by simp [neutral]) (by intro _; simp))
+macro_rules | `(tactic| sx_step) => `(tactic| (refine xpeel_emit _ ?hn ?hw ?_; (case hn => (simp [neutral]; done)); (case hw => (intro _; simp; done))))
 macro_rules | `(tactic| sx_step) => `(tactic| apply xpeel_setToSend_nil)
 macro_rules | `(tactic| sx_step) => `(tactic| apply xpeel_setHb)
 macro_rules | `(tactic| sx_step) => `(tactic| apply xpeel_setSentReset)
@@ -412,7 +410,7 @@ macro_rules | `(tactic| sx_step) => `(tactic| apply xpeel_setStopped)
 macro_rules | `(tactic| sx_step) => `(tactic| apply xpeel_openConn)
 macro_rules | `(tactic| sx_step) => `(tactic| apply xpeel_ite)
 
-macro "sx_peel" : tactic => `(tactic| with_reducible (repeat sx_step))
+macro "sx_peel" : tactic => `(tactic| with_reducible (repeat (first | assumption | exact SExt.refl _ | sx_step)))
 
 macro "sx_cases" : tactic => `(tactic| (
   (repeat' split)
